@@ -153,9 +153,13 @@ def make_body(job):
     elif op == 'discard':
       s = tmux_mod.SocketTransportSink(Sock(), 'svc'); s._Init(); s._state = ChannelState.Open
       tag = fresh_int('tag', 2, 2 ** 24 - 2)
+      # the request with that tag is outstanding (written, unanswered) on the open connection
+      from scales.sink import ClientMessageSinkStack
+      s._tag_map[SymInt(tag) if not is_concrete() and not isinstance(tag, SymInt) else tag] = (ClientMessageSinkStack(), 0, {})
       s._OnTimeout(tag)
       check('discard.queued', s._send_queue.qsize() == 1)
-      payload, props = s._send_queue.get()
+      if s._send_queue.qsize() != 1: return
+      payload, props = s._send_queue.get_nowait()
       b = SymBytes.of(payload); r = Rd(b)
       check('discard.length-prefix', r.u(4) == len(b) - 4)
       check('discard.type', r.u(1) == MessageType.Tdiscarded)
